@@ -11,5 +11,6 @@ import LdarModel.Props.C11
 import LdarModel.Props.C12
 import LdarModel.Props.C13
 import LdarModel.Props.C14
+import LdarModel.Props.C15
 import LdarModel.Props.C16
 import LdarModel.Props.C17
